@@ -59,6 +59,11 @@ func (h *RetryHandler) ExecuteWithRetry(
 		return err
 	}
 
+	// Track whether anything has been sent to the client: once a response has
+	// started it cannot be replayed from another endpoint.
+	tracker := &responseTracker{ResponseWriter: w}
+	w = tracker
+
 	var lastErr error
 	maxRetries := len(endpoints)
 	attemptCount := 0
@@ -87,11 +92,46 @@ func (h *RetryHandler) ExecuteWithRetry(
 			return lastErr
 		}
 
+		if tracker.started {
+			// The failed attempt already delivered part of its response; retrying
+			// would splice another endpoint's answer onto it.
+			h.markEndpointUnhealthy(ctx, endpoint)
+			return lastErr
+		}
+
 		// Handle connection error and retry logic
 		availableEndpoints = h.handleConnectionFailure(ctx, endpoint, lastErr, attemptCount, availableEndpoints, maxRetries)
 	}
 
 	return h.buildFinalError(availableEndpoints, maxRetries, lastErr)
+}
+
+// responseTracker records whether the response to the client has been started
+type responseTracker struct {
+	http.ResponseWriter
+	started bool
+}
+
+func (t *responseTracker) WriteHeader(statusCode int) {
+	t.started = true
+	t.ResponseWriter.WriteHeader(statusCode)
+}
+
+func (t *responseTracker) Write(b []byte) (int, error) {
+	t.started = true
+	return t.ResponseWriter.Write(b)
+}
+
+// Flush keeps streaming working for callers that type-assert http.Flusher
+func (t *responseTracker) Flush() {
+	if f, ok := t.ResponseWriter.(http.Flusher); ok {
+		f.Flush()
+	}
+}
+
+// Unwrap lets http.ResponseController reach the underlying writer
+func (t *responseTracker) Unwrap() http.ResponseWriter {
+	return t.ResponseWriter
 }
 
 // preserveRequestBody reads and preserves request body for potential retries
